@@ -257,14 +257,33 @@ def token_ends(terms, name, text, p, scanner='ideal'):
     return sorted(ends)
 
 
-def enumerate_derivations_ignore(rules, terms, start, text, ignores, cap=400, scanner='ideal'):
+def gap_closure_terms(text, terms, ign_names, scanner):
+    """like gap_closure for %ignore terminals given by name (string or regexp): under the scanner reading an ignored
+    match is the regexp engine's (greedy) match at the position, under 'ideal' any full match"""
+    n = len(text)
+    reach = []
+    for i in range(n + 1):
+        seen = {i}
+        todo = [i]
+        while todo:
+            p = todo.pop()
+            for nm in ign_names:
+                for e in token_ends(terms, nm, text, p, 'ideal' if scanner == 'ideal' else 'dynamic'):
+                    if e not in seen:
+                        seen.add(e)
+                        todo.append(e)
+        reach.append(sorted(seen))
+    return reach
+
+
+def enumerate_derivations_ignore(rules, terms, start, text, ignores, cap=400, scanner='ideal', ign_terms=None):
     """Character-level derivations of `start` over text for the dynamic lexers with %ignore: the tokens tile the
     text in order, ignored matches may only lie between tokens (before the first, after the last); every token
     span is matched by its terminal (string literal or regexp; see token_ends for `scanner`).
     Tree = ('N', rule_id, children) | ('T', term, text, pos).
     Canonical spans: a symbol ends where its last token ends.  Returns (list, cyclic)."""
     n = len(text)
-    reach = gap_closure(text, ignores)
+    reach = gap_closure(text, ignores) if ign_terms is None else gap_closure_terms(text, terms, ign_terms, scanner)
     by_origin = {}
     for r in rules:
         by_origin.setdefault(r['origin'], []).append(r)
@@ -708,6 +727,64 @@ def multi_visit_size(nodes, cap=60000):
     return count[0]
 
 
+def coq_gsum_case(root, p, timeout=20):
+    """Run lark's ForestSumVisitor on the PRISTINE forest (every priority still -inf) and emit the case for
+    gsum_ok of Forest/GraphResolveCheck.v: the graph, rule priority / rule order / token priority tables, and the
+    priority found on every symbol and packed node afterwards (None = -inf).  Must be called before any other
+    walk touches the forest."""
+    from lark.parsers.earley_forest import ForestSumVisitor
+    with_timeout(timeout, ForestSumVisitor().visit, root)
+    maps = {}
+    nodes = export_graph(root, p, maps)
+    rules, terms = tables(p)
+    nts, tms = {}, {}
+
+    def nt(n):
+        return nts.setdefault(n, len(nts))
+
+    def tm(n):
+        return tms.setdefault(n, len(tms))
+    rule_terms = []
+    for r in rules:
+        rule_terms.append('(mkRule %d %s)' % (nt(r['origin']), L(['(T %d)' % tm(n) if t else '(NT %d)' % nt(n)
+                                                                  for t, n in r['exp']]) if r['exp'] else '(@nil symbol)'))
+
+    def label(i):
+        nd = nodes[i]
+        if nd['k'] == 'T':
+            return '(NTok nat %d %d 0 0)' % (tm(nd['term']), nd['tid'])
+        if nd['inter']:
+            ri, ptr = nd['name'].split('.')
+            return '(NInter nat (r %s) %s %d %d)' % (ri, ptr, nd['start'], nd['end'])
+        return '(NSym nat %d %d %d)' % (nt(str(nd['name'])), nd['start'], nd['end'])
+
+    def fam(k):
+        pk = nodes[k]
+        o = lambda x: 'None' if x is None else '(Some %s)' % label(x)
+        return '(r %d, %s, %s)' % (pk['rule'], o(pk['left']), o(pk['right']))
+
+    def oz(v):
+        return 'None' if v == NEG_INF or v is None else '(Some %s)' % Z(int(v))
+    fams, osym, opk = [], [], []
+    ntok = 1 + max([nd['tid'] for nd in nodes if nd['k'] == 'T'] or [0])
+    tptab = [0] * ntok
+    for i, nd in enumerate(nodes):
+        if nd['k'] == 'S':
+            osym.append('(%s, %s)' % (label(i), oz(nd['prio'])))
+            for k in nd['fams']:
+                fams.append('(%s, %s)' % (label(i), fam(k)))
+                opk.append('(%s, %s, %s)' % (label(i), fam(k), oz(nodes[k]['prio'])))
+        elif nd['k'] == 'T':
+            tptab[nd['tid']] = int(nd['prio'] or 0)
+    rptab = L(['(r %d, %s)' % (i, Z(int(r['prio'] or 0))) for i, r in enumerate(rules)])
+    rotab = L(['(r %d, %s)' % (i, Z(int(r['order']))) for i, r in enumerate(rules)])
+    small = (not is_cyclic(nodes)) and unfolded_size(nodes) <= 300
+    return ('(let r := fun k : nat => nth k %s (mkRule 0 []) in (%s, %s, %s, %s, %s, %s, %s, %s))'
+            % (L(rule_terms), L(fams) if fams else '(@nil (nlabel nat * family nat))', rptab, rotab,
+               L([Z(v) for v in tptab]), label(0), L(osym) if osym else '(@nil (nlabel nat * option Z))',
+               L(opk) if opk else '(@nil (nlabel nat * family nat * option Z))', 'true' if small else 'false'))
+
+
 def coq_graph_case(root, p, timeout=20):
     """Run lark's ForestToParseTree(resolve_ambiguity=True) with rule-identity callbacks on the forest (cyclic or
     not) and emit the case for Forest/GraphResolveCheck.v: (label, family) pairs in insertion order, the
@@ -957,6 +1034,54 @@ def tree_to_derivation(t, rules):
     if len(cand) != 1:
         return None
     return ('N', cand[0]['id'], tuple(cs))
+
+
+def tree_to_posderivation(t, rules):
+    """like tree_to_derivation, token leaves keep their start position: ('T', type, text, start_pos)"""
+    from lark import Tree, Token
+    if isinstance(t, Token):
+        return ('T', str(t.type), str(t), t.start_pos)
+    if not isinstance(t, Tree):
+        return None
+    cs = [tree_to_posderivation(c, rules) for c in t.children if c is not None]
+    if any(c is None for c in cs):
+        return None
+    shape = [(c[0] == 'T', c[1] if c[0] == 'T' else rules[c[1]]['origin']) for c in cs]
+    cand = [r for r in rules if r['name'] == str(t.data) and [(a, b) for a, b in r['exp']] == shape]
+    if len(cand) != 1:
+        return None
+    return ('N', cand[0]['id'], tuple(cs))
+
+
+def gen_ws_grammar(rng):
+    """dynamic-lexer grammars with a greedy multi-character %ignore over blanks and regexp terminals that may swallow
+    ignorable characters (AS: /a\\s/, SB: / ?b/ ...), signed rule and terminal priorities; texts over {a, b, ' '}"""
+    tpool = [('A', '"a"'), ('B', '"b"'), ('AS', '/a /'), ('SB', '/ b/'), ('ASS', '/a ?/'), ('BS', '/b +/'),
+             ('SA', '/ ?a/'), ('AB', '/a ?b/'), ('S', '" "')]
+    chosen = [tpool[0], tpool[1]] + rng.sample(tpool[2:], rng.randint(2, 4))
+    terms = [n for n, _ in chosen]
+    nts = ['start', 'w', 'v'][:rng.randint(2, 3)]
+    lines = []
+    for nt in nts:
+        idx = nts.index(nt)
+        alts = []
+        for _ in range(rng.randint(2, 3)):
+            n = rng.choice([1, 2, 2, 3])
+            syms = []
+            for _ in range(n):
+                if rng.random() < 0.55 or idx == len(nts) - 1:
+                    syms.append(rng.choice(terms))
+                else:
+                    syms.append(rng.choice(nts[idx + 1:]))
+            alts.append(' '.join(syms))
+        alts = list(dict.fromkeys(alts))
+        pr = '.%d' % rng.choice([-2, -1, 1, 2, 3]) if rng.random() < 0.5 else ''
+        lines.append('%s%s: %s' % (nt, pr, ' | '.join(alts)))
+    for n, v in chosen:
+        pr = '.%d' % rng.choice([-2, -1, 1, 2, 3]) if rng.random() < 0.5 else ''
+        lines.append('%s%s: %s' % (n, pr, v))
+    lines.append(rng.choice(['%ignore / +/', '%ignore / +/', '%ignore /[ ]+/', '%ignore " "\n%ignore /  +/']))
+    return '\n'.join(lines) + '\n'
 
 
 def idtree_to_derivation(t):
